@@ -211,3 +211,34 @@ func TestRegCloseHookOutsideLock(t *testing.T) {
 		}
 	}
 }
+
+// seeded change C19-a4: addStream de-duplicated st.tags but still added one index entry per
+// mention, so a tag mentioned twice at registration left a stale stream id in the tag index
+// after RemoveTags* / the end of the stream (stale subscription, then nil dereference).
+func TestRegTagMentionedTwice(t *testing.T) {
+	ps := peersOK(3)
+	ps[2].Stream.Tags = []int{2, 2}
+	for _, incoming := range []bool{false, true} {
+		one(t, Case{
+			Peers: ps,
+			Streams: []StreamSpec{
+				{Gate: gateHealthy, Peer: 0, Queue: 3, Tags: []int{0, 1, 0}, Incoming: incoming},
+				{Gate: gateHealthy, Peer: 1, Queue: 3, Tags: []int{0, 0}, Incoming: !incoming},
+			},
+			Initial: 2, Workers: 1, DialQueue: 2, Hook: hookInstant,
+			Ops: []Op{
+				{Kind: opBroadcast, Tags: []int{0}, N: 1, Pace: true},
+				{Kind: opRemoveTagsById, A: 0, Tags: []int{0, 0}, Pace: true},
+				{Kind: opBroadcast, Tags: []int{0}, N: 1, Pace: true},
+				{Kind: opSend, Peers: []int{2}, N: 1, Pace: true}, // dials a stream registered with tags [2,2]
+				{Kind: opBroadcast, Tags: []int{2}, N: 1, Pace: true},
+				{Kind: opRemoveTags, A: 0, Tags: []int{2}, Via: 1, Pace: true}, // stream d2.1 sorts first
+				{Kind: opBroadcast, Tags: []int{2, 1}, N: 1, Pace: true},
+				{Kind: opClose, A: 2, Pace: true}, // e1, still holding tag 0 twice
+				{Kind: opBroadcast, Tags: []int{0}, N: 2, Pace: true},
+				{Kind: opAddTags, A: 1, Tags: []int{0, 0}, Pace: true},
+				{Kind: opBroadcast, Tags: []int{0}, N: 1, Pace: true},
+			},
+		})
+	}
+}
